@@ -25,7 +25,7 @@ ASSUMPTIONS = [
     "children or authentication/recordDelimiter children that differ in what they carry",
     "'any tree built from known element names' excludes unknown names and non-text content, not invalid structure",
 ]
-REQUIRED = ["calls_into_a_list_of_about_1000_and_more_entries", "evaluated_elements_written_with_a_bound_prefix", "packages_with_hundreds_of_parties", "vocabulary_sweep_trees", "re_evaluated_after_in_place_edit", "empty_descriptions_planted", "tree_calls", "node_calls", "valid_trees_compared", "warnings_compared", "prior_entries_preserved_checks", "title_at_threshold",
+REQUIRED = ["node_results_edited_by_the_caller", "calls_into_a_list_of_about_1000_and_more_entries", "evaluated_elements_written_with_a_bound_prefix", "packages_with_hundreds_of_parties", "vocabulary_sweep_trees", "re_evaluated_after_in_place_edit", "empty_descriptions_planted", "tree_calls", "node_calls", "valid_trees_compared", "warnings_compared", "prior_entries_preserved_checks", "title_at_threshold",
             "abstract_at_threshold", "keywords_at_threshold"]
 EXHAUSTIVE = {"quick": False, "thorough": False}
 
@@ -253,6 +253,26 @@ def judge(ctx, root, origin, compare):
             return
         ctx.evaluated()
         ctx.count("node_calls")
+        if isinstance(ev, list):
+            # what evaluate.node hands back is the caller's: it is added to, emptied, kept (report += evaluate.node(x)) - and the next
+            # evaluation of the same node says what this one said
+            said = [(e[0], e[1], id(e[2])) for e in ev if isinstance(e, tuple) and len(e) == 3]
+            ev_list = ev
+            ev_list.append((EvaluationWarning.TITLE_TOO_SHORT if hasattr(EvaluationWarning, "TITLE_TOO_SHORT") else list(EvaluationWarning)[0],
+                            "verif: added by the caller", n))
+            try:
+                ev2 = evaluate.node(n)
+            except Exception:
+                ev2 = None
+            ctx.count("node_results_edited_by_the_caller")
+            if isinstance(ev2, list):
+                said2 = [(e[0], e[1], id(e[2])) for e in ev2 if isinstance(e, tuple) and len(e) == 3]
+                if ev2 is ev_list or said2 != said:
+                    ctx.violation("evaluate-node-result-shared-with-later-calls", f"evaluate.node(<{n.name}>) after the caller added an entry to the list the "
+                                  f"previous call returned: {len(said2)} entries, the first call said {len(said)}",
+                                  {"tree": snapshot.to_plain(n), "origin": origin + "/node", "node_only": True})
+                    return
+            ev = ev_list[:-1]
         if ev is not None and not (isinstance(ev, list) and check_entries(ctx, ev, wit, f"evaluate.node(<{n.name}>)")):
             if not isinstance(ev, list):
                 ctx.violation("evaluate-node-returns-non-list", f"evaluate.node(<{n.name}>) returned {ev!r:.100}", wit())
